@@ -130,6 +130,22 @@ CHECKS = {
              "is re-fingerprinted, and TLC accepts the session only if each observation is a step of the state machine in which "
              "no existing procedure or cursor changed and failing operations define nothing.",
         note="Trusted: TLC, the fingerprint function (harness/purity.py); module-level caches observed only through results."),
+    "C15": dict(level=MC, design="6/C15",
+        technique="TLA+ Annot specification (Consistent over the annotation assignment space) enumerated by TLC and replayed on the real set_precision/set_memory/set_window + compiler; gcc as external judge of validity",
+        text="TLC enumerates the precision/memory/window assignments of a caller->callee->leaf template with the verdict of the "
+             "Consistent predicate (one precision per expression, matching precisions and memories across calls, direct access "
+             "only to accessible memories, no window where a dense tensor is required); each replayed assignment is applied with "
+             "the real operators and compiled: an inconsistent one must be rejected at compile time, an accepted one must yield "
+             "C and header text accepted by gcc -std=c11 with strict -Werror flags; corpus and derived procedures' C is checked too.",
+        note="Trusted: TLC, gcc 12; one template call graph; 'valid C' is the C compiler's judgement."),
+    "C18": dict(level=EX, design="6/C18",
+        technique="TLA+ Determinism specification (2-safety over recorded runs: observations of the same source and schedule step must agree) validating runs of fresh interpreters; TLC",
+        text="The same scripted sessions (corpus procedures x a fixed schedule script; single-procedure and multi-procedure library "
+             "compiles) are executed in fresh interpreters under PYTHONHASHSEED 0/1/2/random, different numbers of previously "
+             "created symbols and procedures and different import orders; every observation carries digests of the printed "
+             "procedure, C and header, and the specification accepts an observation only if it equals every earlier "
+             "observation with the same key.",
+        note="Sampling of process histories (exploration); trusted: TLC, sha1 digests, kernel ASLR."),
 }
 
 NOT_YET = {}
